@@ -2299,6 +2299,9 @@ Box<ITV>::remove_higher_space_dimensions(const dimension_type new_dimension) {
     return;
   }
 
+  // Emptiness may only be witnessed by one of the intervals being
+  // removed: detect (and cache) it before dropping them.
+  (void) is_empty();
   seq.resize(new_dimension);
   PPL_ASSERT(OK());
 }
